@@ -29,7 +29,7 @@ LEVEL_NOTE = ("Not modelled: the AWS/GCS SDK clients (a fake in-memory remote wi
               "failure order); its steps are not observable without hooks, so that model is tied to the code only by the sampled fault histories running under a timeout. "
               "second_machine (composition with C01: B executes nothing A cached) is sampled by the restore oracle, not proved here.")
 TECHNIQUE = "Lean 4 invariant proof over a transition system + trace-inclusion correspondence on multi-machine histories + remote closure audit"
-PROP_MODULES = ["GrogModel.Props.C08", "GrogModel.Props.ComposeStores"]
+PROP_MODULES = ["GrogModel.Props.C08", "GrogModel.Props.ComposeStores", "GrogModel.Props.ComposeExecStore"]
 OBLIGATIONS = [
     "Grog.C08.remote_closed",
     "Grog.C08.dangling_witness",
@@ -43,6 +43,8 @@ OBLIGATIONS = [
     "Grog.C08.get_does_not_confirm",
     "Grog.Compose.second_machine",
     "Grog.Compose.second_machine_state",
+    "Grog.Compose.rwrites_of_history",
+    "Grog.Compose.second_machine_of_history",
 ]
 ASSUMPTIONS = [
     "the remote store never loses an object and a successful put is atomic (S3 PutObject / finalised GCS writer)",
